@@ -454,6 +454,7 @@ impl tower_service::Service<Request<tonic::Streaming<Vec<u8>>>> for StreamingH {
 }
 
 struct ServerCase {
+    gen: Option<bool>, // Some(with max_* calls): through the generated HealthServer / ServerReflectionServer
     shape: Shape,
     accept: Vec<Enc>, // accept_compressed calls in order
     send: Vec<Enc>,   // send_compressed calls in order
@@ -537,7 +538,7 @@ fn case_server(out: &mut Out, kind: &str, c: ServerCase) {
     let resp_msgs: Vec<Vec<u8>> = if c.shape.response_is_unary() { vec![c.handler.one()] } else { c.handler.msgs.clone() };
 
     // ---- model expression
-    let sv = if c.via_apply {
+    let sv = if c.via_apply || c.gen.is_some() {
         format!(
             "(apply_compression_config server_new (config_of {}) (config_of {}))",
             coq_encs(&c.accept),
@@ -586,10 +587,11 @@ fn case_server(out: &mut Out, kind: &str, c: ServerCase) {
             let (body, _) = ScriptBody::<Status>::new(body_events(&c.frames, c.coalesce));
             let mut req = http::Request::new(body);
             *req.method_mut() = http::Method::POST;
-            *req.uri_mut() = "/s/m".parse().unwrap();
+            *req.uri_mut() = if c.gen.is_some() { gen_path(c.shape).parse().unwrap() } else { "/s/m".parse().unwrap() };
             *req.headers_mut() = req_hm;
             let h = H { spec: c.handler.clone(), seen };
             let resp = match c.shape {
+                _ if c.gen.is_some() => call_generated(c.shape, &c.accept, &c.send, c.gen.unwrap(), h, req),
                 Shape::Unary => spin(grpc.unary(UnaryH(h), req), 100_000),
                 Shape::ServerStreaming => spin(grpc.server_streaming(ServerStreamingH(h), req), 100_000),
                 Shape::ClientStreaming => spin(grpc.client_streaming(ClientStreamingH(h), req), 100_000),
@@ -793,7 +795,7 @@ fn case_server(out: &mut Out, kind: &str, c: ServerCase) {
     };
     drop(fail);
 
-    out.hist("server.shape", c.shape.name());
+    out.hist("server.shape", format!("{}{}", if c.gen.is_some() { "generated:" } else { "" }, c.shape.name()));
     out.hist("server.accept_cfg", names(&acc_set));
     out.hist("server.send_cfg", names(&send_set));
     out.hist("server.accept_lines", acc_lines.len());
@@ -815,6 +817,7 @@ fn case_server(out: &mut Out, kind: &str, c: ServerCase) {
     out.push(Case {
         kind: kind.into(),
         input: json!({
+            "generated": c.gen,
             "shape": c.shape.name(),
             "accept": c.accept.iter().map(|e| e.name()).collect::<Vec<_>>(),
             "send": c.send.iter().map(|e| e.name()).collect::<Vec<_>>(),
@@ -881,6 +884,7 @@ impl tower_service::Service<http::Request<tonic::body::Body>> for CaptureSvc {
 }
 
 struct ClientCase {
+    gen: bool, // through the generated HealthClient / ServerReflectionClient
     shape: Shape,
     sends: Vec<Enc>,   // send_compressed calls in order (the last one counts)
     accepts: Vec<Enc>, // accept_compressed calls in order
@@ -1497,7 +1501,7 @@ fn replay(out: &mut Out, file: &str) {
     let shape = Shape::by_name(i["shape"].as_str().unwrap_or("unary"));
     if kind.ends_with("server") {
         case_server(out, &kind, ServerCase {
-            shape,
+            gen: None, shape,
             accept: encs_of(&i["accept"]),
             send: encs_of(&i["send"]),
             via_apply: i["via_apply_compression_config"].as_bool().unwrap_or(false),
@@ -1513,13 +1517,13 @@ fn replay(out: &mut Out, file: &str) {
         });
     } else if kind.ends_with("client_request") {
         case_client_request(out, &kind, ClientCase {
-            shape, sends: encs_of(&i["send_calls"]), accepts: encs_of(&i["accept_calls"]), user_md: pairs_of(&i["user_metadata"]),
+            gen: false, shape, sends: encs_of(&i["send_calls"]), accepts: encs_of(&i["accept_calls"]), user_md: pairs_of(&i["user_metadata"]),
             msgs: msgs_of(&i["msgs"]), resp_headers: vec![], resp_frames: vec![InFrame { flag: 0, codec: None, msg: b"ok".to_vec() }],
             trailers_only: false, coalesce: false,
         });
     } else if kind.ends_with("client_receive") {
         case_client_receive(out, &kind, ClientCase {
-            shape, sends: encs_of(&i["send_calls"]), accepts: encs_of(&i["accept_calls"]), user_md: vec![],
+            gen: false, shape, sends: encs_of(&i["send_calls"]), accepts: encs_of(&i["accept_calls"]), user_md: vec![],
             msgs: msgs_of(&i["msgs"]), resp_headers: pairs_of(&i["response_headers"]), resp_frames: frames_of(&i["response_frames"]),
             trailers_only: i["trailers_only"].as_bool().unwrap_or(false), coalesce: i["coalesce"].as_bool().unwrap_or(false),
         });
@@ -1572,7 +1576,7 @@ fn main() {
         for (send, v) in wit {
             for via_apply in [false, true] {
                 case_server(&mut out, "corpus.server", ServerCase {
-                    shape, accept: vec![], send: send.to_vec(), via_apply,
+                    gen: None, shape, accept: vec![], send: send.to_vec(), via_apply,
                     headers: vec![(ACCEPT.into(), v.to_vec())], frames: plain(&msg), coalesce: false,
                     handler: HandlerSpec { md: vec![], disable: false, err: None, msgs: two.clone() },
                 });
@@ -1592,7 +1596,7 @@ fn main() {
                     continue;
                 }
                 case_server(&mut out, "corpus.server", ServerCase {
-                    shape, accept: vec![], send: send.clone(), via_apply: false,
+                    gen: None, shape, accept: vec![], send: send.clone(), via_apply: false,
                     headers: vec![(ACCEPT.into(), v.to_vec())], frames: plain(&msg), coalesce: false,
                     handler: HandlerSpec { md: vec![], disable: false, err: None, msgs: two.clone() },
                 });
@@ -1614,7 +1618,7 @@ fn main() {
                     }
                     let codec = if flag == 1 { Enc::by_name(v) } else { None };
                     case_server(&mut out, "corpus.server", ServerCase {
-                        shape, accept: acc.clone(), send: vec![Enc::Gzip], via_apply: false,
+                        gen: None, shape, accept: acc.clone(), send: vec![Enc::Gzip], via_apply: false,
                         headers: vec![(ENCODING.into(), v.to_vec()), (ACCEPT.into(), b"gzip".to_vec())],
                         frames: vec![InFrame { flag, codec, msg: msg.clone() }], coalesce: false, handler: plain_handler(&msg),
                     });
@@ -1624,12 +1628,12 @@ fn main() {
         // compressed flag and no grpc-encoding at all; a second frame that is flagged
         for shape in SHAPES {
             case_server(&mut out, "corpus.server", ServerCase {
-                shape, accept: acc.clone(), send: vec![], via_apply: false, headers: vec![],
+                gen: None, shape, accept: acc.clone(), send: vec![], via_apply: false, headers: vec![],
                 frames: vec![InFrame { flag: 1, codec: acc.first().copied(), msg: msg.clone() }], coalesce: false,
                 handler: plain_handler(&msg),
             });
             case_server(&mut out, "corpus.server", ServerCase {
-                shape, accept: acc.clone(), send: vec![], via_apply: false, headers: vec![],
+                gen: None, shape, accept: acc.clone(), send: vec![], via_apply: false, headers: vec![],
                 frames: vec![InFrame { flag: 0, codec: None, msg: msg.clone() }, InFrame { flag: 1, codec: None, msg: msg.clone() }],
                 coalesce: true, handler: plain_handler(&msg),
             });
@@ -1639,19 +1643,19 @@ fn main() {
     for shape in SHAPES {
         for (disable, err) in [(true, None), (false, Some((5, "nf".to_string()))), (true, Some((13, "x".to_string())))] {
             case_server(&mut out, "corpus.server", ServerCase {
-                shape, accept: vec![], send: vec![Enc::Zstd, Enc::Gzip], via_apply: false,
+                gen: None, shape, accept: vec![], send: vec![Enc::Zstd, Enc::Gzip], via_apply: false,
                 headers: vec![(ACCEPT.into(), b"gzip, zstd".to_vec())], frames: plain(&msg), coalesce: false,
                 handler: HandlerSpec { md: vec![], disable, err, msgs: two.clone() },
             });
         }
         case_server(&mut out, "corpus.server", ServerCase {
-            shape, accept: vec![Enc::Gzip], send: vec![Enc::Gzip], via_apply: false,
+            gen: None, shape, accept: vec![Enc::Gzip], send: vec![Enc::Gzip], via_apply: false,
             headers: vec![(ACCEPT.into(), b"gzip".to_vec()), (ENCODING.into(), b"gzip".to_vec())], frames: vec![], coalesce: false,
             handler: HandlerSpec { md: vec![], disable: false, err: None, msgs: vec![] },
         });
         // the unreserved name in the handler's metadata (premise of the announce theorem is false)
         case_server(&mut out, "corpus.server", ServerCase {
-            shape, accept: vec![], send: vec![], via_apply: false, headers: vec![], frames: plain(&msg), coalesce: false,
+            gen: None, shape, accept: vec![], send: vec![], via_apply: false, headers: vec![], frames: plain(&msg), coalesce: false,
             handler: HandlerSpec { md: vec![(ENCODING.into(), b"gzip".to_vec())], disable: false, err: None, msgs: two.clone() },
         });
     }
@@ -1665,7 +1669,7 @@ fn main() {
                     continue;
                 }
                 case_client_request(&mut out, "corpus.client_request", ClientCase {
-                    shape, sends: send.clone(), accepts: acc.clone(), user_md: vec![], msgs: two.clone(), resp_headers: vec![],
+                    gen: false, shape, sends: send.clone(), accepts: acc.clone(), user_md: vec![], msgs: two.clone(), resp_headers: vec![],
                     resp_frames: ok_resp.clone(), trailers_only: false, coalesce: false,
                 });
             }
@@ -1682,7 +1686,7 @@ fn main() {
                     }
                     let codec = if flag == 1 { Enc::by_name(v) } else { None };
                     case_client_receive(&mut out, "corpus.client_receive", ClientCase {
-                        shape, sends: vec![], accepts: acc.clone(), user_md: vec![], msgs: vec![msg.clone()],
+                        gen: false, shape, sends: vec![], accepts: acc.clone(), user_md: vec![], msgs: vec![msg.clone()],
                         resp_headers: vec![(ENCODING.into(), v.to_vec())],
                         resp_frames: vec![InFrame { flag, codec, msg: msg.clone() }], trailers_only: false, coalesce: false,
                     });
@@ -1691,7 +1695,7 @@ fn main() {
         }
         for shape in SHAPES {
             case_client_receive(&mut out, "corpus.client_receive", ClientCase {
-                shape, sends: vec![], accepts: acc.clone(), user_md: vec![], msgs: vec![msg.clone()], resp_headers: vec![],
+                gen: false, shape, sends: vec![], accepts: acc.clone(), user_md: vec![], msgs: vec![msg.clone()], resp_headers: vec![],
                 resp_frames: vec![InFrame { flag: 1, codec: acc.first().copied(), msg: msg.clone() }], trailers_only: false, coalesce: false,
             });
         }
@@ -1704,18 +1708,18 @@ fn main() {
                 h.push((ENCODING.into(), e.to_vec()));
             }
             case_client_receive(&mut out, "corpus.client_receive", ClientCase {
-                shape, sends: vec![], accepts: vec![Enc::Gzip], user_md: vec![], msgs: vec![msg.clone()], resp_headers: h,
+                gen: false, shape, sends: vec![], accepts: vec![Enc::Gzip], user_md: vec![], msgs: vec![msg.clone()], resp_headers: h,
                 resp_frames: vec![], trailers_only: true, coalesce: false,
             });
         }
         case_client_receive(&mut out, "corpus.client_receive", ClientCase {
-            shape, sends: vec![], accepts: vec![Enc::Gzip], user_md: vec![], msgs: vec![msg.clone()],
+            gen: false, shape, sends: vec![], accepts: vec![Enc::Gzip], user_md: vec![], msgs: vec![msg.clone()],
             resp_headers: vec![(ENCODING.into(), b"gzip".to_vec()), (ACCEPT.into(), b"zstd".to_vec())],
             resp_frames: vec![], trailers_only: false, coalesce: false,
         });
         // a bad first frame under response headers that carry grpc-accept-encoding (merged into the status)
         case_client_receive(&mut out, "corpus.client_receive", ClientCase {
-            shape, sends: vec![], accepts: vec![Enc::Gzip], user_md: vec![], msgs: vec![msg.clone()],
+            gen: false, shape, sends: vec![], accepts: vec![Enc::Gzip], user_md: vec![], msgs: vec![msg.clone()],
             resp_headers: vec![(ACCEPT.into(), b"zstd".to_vec())],
             resp_frames: vec![InFrame { flag: 1, codec: None, msg: msg.clone() }], trailers_only: false, coalesce: false,
         });
@@ -1747,7 +1751,7 @@ fn main() {
         let frames = gen_frames(&mut r, &enc);
         let handler = if r.chance(1, 2) { HandlerSpec { md: vec![], disable: false, err: None, msgs: { let mut m = gen_msgs(&mut r); if m.is_empty() { m.push(gen_msg(&mut r)); } m } } } else { gen_handler(&mut r) };
         case_server(&mut out, "server", ServerCase {
-            shape: *r.pick(&SHAPES), accept, send, via_apply: r.chance(1, 5), headers, frames, coalesce: r.chance(1, 2), handler,
+            gen: None, shape: *r.pick(&SHAPES), accept, send, via_apply: r.chance(1, 5), headers, frames, coalesce: r.chance(1, 2), handler,
         });
     }
     for _ in 0..n_req {
@@ -1769,7 +1773,7 @@ fn main() {
             user_md.push(("te".into(), b"x".to_vec()));
         }
         case_client_request(&mut out, "client_request", ClientCase {
-            shape: *r.pick(&SHAPES), sends, accepts: gen_calls(&mut r, &cfgs), user_md, msgs: gen_msgs(&mut r), resp_headers: vec![],
+            gen: false, shape: *r.pick(&SHAPES), sends, accepts: gen_calls(&mut r, &cfgs), user_md, msgs: gen_msgs(&mut r), resp_headers: vec![],
             resp_frames: ok_resp.clone(), trailers_only: false, coalesce: false,
         });
     }
@@ -1809,7 +1813,7 @@ fn main() {
         }
         let frames = gen_frames(&mut r, &enc);
         case_client_receive(&mut out, "client_receive", ClientCase {
-            shape: *r.pick(&SHAPES), sends: vec![], accepts, user_md: vec![], msgs: vec![gen_msg(&mut r)], resp_headers: h,
+            gen: false, shape: *r.pick(&SHAPES), sends: vec![], accepts, user_md: vec![], msgs: vec![gen_msg(&mut r)], resp_headers: h,
             resp_frames: frames, trailers_only, coalesce: r.chance(1, 2),
         });
     }
